@@ -304,6 +304,10 @@ func shrinkOps(p Pair) []func(*Pair) {
 	}
 	// 3. environment
 	ops = append(ops, func(q *Pair) { q.Mode = "atlas" }, func(q *Pair) { q.Rows = 0 })
+	if p.Mode != "atlas" && p.Mode != "" && p.Mode != Styles[0].Name {
+		// a failure that needs a raw database but not a particular style is reported under the plainest one
+		ops = append(ops, func(q *Pair) { q.Mode = Styles[0].Name })
+	}
 	// 4. objects inside tables
 	for _, tn := range tables {
 		tn := tn
@@ -543,4 +547,38 @@ func Shrink(p Pair, still func(Pair) bool, maxRuns int) (Pair, int) {
 		}
 	}
 	return cur, runs
+}
+
+// AppendOnly reports whether, for every table the two models share, the shared columns appear in the
+// same relative order and every column new in b comes after all shared ones. Only then is the column
+// order of the result well defined (ALTER TABLE can only append; a rebuild uses the desired order), so
+// only then may a monitor compare the "colorder" fact.
+func AppendOnly(a, b Schema) bool {
+	for _, ta := range a.Tables {
+		tb := b.Table(ta.Name)
+		if tb == nil {
+			continue
+		}
+		var ca, cb []string
+		for _, c := range ta.Cols {
+			if tb.Col(c.Name) != nil {
+				ca = append(ca, c.Name)
+			}
+		}
+		seenNew := false
+		for _, c := range tb.Cols {
+			if ta.Col(c.Name) != nil {
+				if seenNew {
+					return false
+				}
+				cb = append(cb, c.Name)
+			} else {
+				seenNew = true
+			}
+		}
+		if !slices.Equal(ca, cb) {
+			return false
+		}
+	}
+	return true
 }
